@@ -272,6 +272,17 @@ def r5(ctx):
                      "the path reports as a file while read_dir(\"/d\") still lists the directory's children")
     if ctx.strict and not n:
         ctx.bad(R, "open:create-refused-on-directory", "", "no file creation found in OpenOptions::open: re-derive")
+    # O_TRUNC is logged whenever it was asked for - also for a file this open has just created: pending data records are keyed by path, and the
+    # SetLen(0) is what separates a re-created file from the records of an earlier file of the same name
+    for fb in ctx.w.family(SH + "OpenOptions::open") if SH + "OpenOptions::open" in ctx.w.bodies else []:
+        for bb, t in fb.calls(re.compile(r"^turmoil_fs::Fs::set_file_len$")):
+            dep = set()
+            for sbb in control_switches(fb, bb):
+                dep |= Slicer(ctx.w, control=True).atoms(fb, fb.term(sbb)["d"])
+            bad = "call:turmoil_fs::Fs::file_exists" in dep
+            ctx.inst(R, "open:truncate-whenever-asked", not bad, t["s"], "the truncation does not depend on whether the file existed" if not bad else
+                     "OpenOptions::open skips the SetLen(0) of truncate(true) for a file it has just created: File::create on a name whose earlier file was removed (removal or old "
+                     "writes still pending) merges the old records into the new file at the next data sync - old `AAAAAAAA`, new `BB`, durable result `BBAAAAAA`")
     # (b)
     k = 0
     for fid in (SH + "create_dir_all", SH + "create_dir_all_with_mode"):
@@ -311,7 +322,32 @@ def r5(ctx):
                  "the mutex is poisoned and File::drop aborts the process - a POSIX file returns EINVAL / EOVERFLOW")
     if ctx.strict and m < 2:
         ctx.bad(R, "offset-arithmetic", "", f"only {m} of write_at_internal / seek found: re-derive")
-    ctx.floor(R, 5)
+    # (d) rename fails when the *destination's* parent does not exist: the parent test of Fs::rename is applied to the second path
+    rn = ctx.w.bodies.get("turmoil_fs::Fs::rename")
+    if rn:
+        pe = [t for bb, t in rn.calls(re.compile(r"^turmoil_fs::Fs::parent_exists$"))]
+        on_to = [t for t in pe if any(a.startswith("arg:3:") for a in Slicer(ctx.w).atoms(rn, t["args"][1]))]
+        ctx.inst(R, "rename:destination-parent-tested", bool(on_to), pe[0]["s"] if pe else rn.span, "rename tests the parent of the destination" if on_to else
+                 "Fs::rename never asks whether the parent of the *destination* exists (the test is missing or applied to the source): a rename into a directory that does not exist "
+                 "returns Ok, the source name disappears and the entry is reachable under a path whose parent is not a directory")
+    # (e) a chain of pending renames is followed to its origin: the content of c after rename(a, b); rename(b, c) is stored under a. The
+    # resolver compares each rename's target with the name *found so far* (a local that is reassigned in the walk), not with the parameter
+    rp = ctx.w.bodies.get("turmoil_fs::Fs::resolve_persisted_path")
+    if rp:
+        chain = False
+        for fb in ctx.w.family(rp.id):
+            for bb, t in fb.calls(re.compile(r"PartialEq.*::(eq|ne)$")):
+                for a in t["args"]:
+                    o = deref_origin(fb, a)
+                    if o["k"] == "place" and not o["p"].get("p") and not (1 <= o["p"]["l"] <= fb.argc):
+                        l = o["p"]["l"]
+                        ds = [d for d in fb.defs().get(l, []) if d[1] == "term" or "*" not in (d[2]["p"].get("p") or ())]
+                        if len(ds) >= 2:
+                            chain = True
+        ctx.inst(R, "resolve_persisted_path:follows-the-chain", chain, rp.span, "each pending rename is matched against the name found so far" if chain else
+                 "Fs::resolve_persisted_path matches pending renames against its parameter only (one hop): after rename(a, b); rename(b, c) with neither synced, the content of c is "
+                 "looked up under b - metadata(c).len() is 0 and every front-end reads nothing")
+    ctx.floor(R, 7)
 
 
 def run(ctx):
